@@ -205,34 +205,34 @@ CHECKS.update({
 # rules added in the strengthening rounds (DESIGN.md 12); appended to the level text of the property's check
 ADDENDA = {
     'C01': ' Also: registrations computed at import time (loops over vars()/dir()) and fan-out to a computed set of classes are '
-           'reported as "table not provably closed" (R-TABLE-CLOSED / R-FANOUT dynamic).',
+           'reported as "table not provably closed" (R-TABLE-CLOSED / R-FANOUT dynamic). R-MERGE-SHAPE / R-HASHABLE-GUARD are shared here: no merged pair is dropped before construction (an undispatched node is an accepted tag); dict keys count as constructed contents in R-RETURN-UNIVERSE.',
     'C02': ' Also: emitter simple-key bound x worst-case escape expansion vs the scanner\'s key window (R-SIMPLE-KEY-FITS, one '
            'known finding); indentation indicator for every leading space/break (R-BLOCK-HINT-LEADING); per-character '
-           'evaluation of the scalar analysis for BOM / non-printables / non-ASCII (R-ANALYZE-SPECIAL).',
-    'C03': ' Also: parameters bound to the literal None by a caller are not dereferenced unguarded (R-NONE-DEREF).',
+           'evaluation of the scalar analysis for BOM / non-printables / non-ASCII (R-ANALYZE-SPECIAL). R-TIMESTAMP-EXACT (integer arithmetic only), R-ALIAS-KEY-FRESH, R-ESCAPE-INTRODUCER (\'%\' never written raw in tags), R-FOLD-LEADING-SPACE.',
+    'C03': ' Also: parameters bound to the literal None by a caller are not dereferenced unguarded (R-NONE-DEREF). R-LOOKAHEAD-SUFFICIENT and R-BUFFER-ENCAPSULATED are shared here; R-REGEX-LINEAR (no exponential ambiguity in any regex matched against document text, decided on the Thompson automaton with path multiplicities); R-PLAIN-START-CONSUMED (check_plain / scan_plain agreement: no empty token without progress).',
     'C04': ' Also: getattr in find_python_name is applied to the module object only, never along an attribute chain '
-           '(R-GETATTR-CHAIN); the unsafe switch is bound, by keyword or position, only to False or forwarded (R-UNSAFE-FLAG).',
+           '(R-GETATTR-CHAIN); the unsafe switch is bound, by keyword or position, only to False or forwarded (R-UNSAFE-FLAG). Formatting a document-selected object into a string (implicit __repr__/__str__) is an S-dyncall sink; pkgutil/importlib are S-import sinks; R-MERGE-SHAPE shared.',
     'C05': ' Also: per-event caches are cleared on every exit of the process_* methods (R-EVENT-CACHE-RESET); tag-prefix table '
-           'rebuilt per document (R-EMITTER-DOC-RESET); R-BLOCK-HINT-LEADING.',
+           'rebuilt per document (R-EMITTER-DOC-RESET); R-BLOCK-HINT-LEADING. R-ESCAPE-INTRODUCER, R-FOLD-LEADING-SPACE; R-EMITTER-GRAMMAR: the control of the emitter (states, continuation stack, look-ahead queue) is abstractly interpreted over event kinds and compared with the documented event grammar - every well-formed stream up to length 8 is processed, every ill-formed completion (well-formed prefix + up to 1 (quick) / 2 (thorough) arbitrary events + STREAM-END) raises EmitterError.',
     'C06': ' Also: document markers are recognised at column 0 only (R-DOCMARKER-COLUMN0, a forward dataflow over the scanner '
            'CFGs); end of input only on an empty read (shared R-INCREMENTAL-DECODE); the pushdown model extracted from the '
            'parser\'s state methods accepts exactly the sentences of the documented grammar up to length 6 (quick) / 8 '
-           '(thorough) (R-PARSER-GRAMMAR).',
-    'C07': ' Also: what the decoder returned is appended to the buffer unmodified (R-DECODED-UNMODIFIED, reaching definitions).',
-    'C08': ' re.IGNORECASE and inline case variants are modelled.',
+           '(thorough) (R-PARSER-GRAMMAR). R-DIRECTIVES-RESET and R-RESOLVE-INDEX are shared here (LibYAML scopes %TAG per document and passes the event\'s implicit pair to resolve unchanged).',
+    'C07': ' Also: what the decoder returned is appended to the buffer unmodified (R-DECODED-UNMODIFIED, reaching definitions). R-BUFFER-ENCAPSULATED (only the reader touches its window), R-STALE-SNAPSHOT (nothing computed from pointer/buffer is used across update()).',
+    'C08': ' re.IGNORECASE and inline case variants are modelled. R-TIMESTAMP-INT-FIELDS, R-TIMESTAMP-EXACT, R-REGEX-LINEAR.',
     'C09': ' Also: get_mark builds a fresh Mark from index/line/column (R-MARK-FROM-POSITION); R-DOCMARKER-COLUMN0; '
-           'R-PARSER-GRAMMAR (model of the parser state machine vs the documented grammar, both inclusions, bounded length).',
+           'R-PARSER-GRAMMAR (model of the parser state machine vs the documented grammar, both inclusions, bounded length). R-TOKEN-READY (queue head only after need_more_tokens() said no), R-COLUMN-PER-CHAR.',
     'C10': ' Also: every normal path through an add_* classmethod establishes ownership (R-COW-ALL-PATHS); fan-out targets '
            'are resolved through loops, helper functions and generators, a computed set of targets is a violation.',
-    'C11': ' Also: R-EMITTER-DOC-RESET; no function changes interpreter-wide settings (R-NO-PROCESS-STATE).',
-    'C13': ' Also: construct_sequence/mapping/pairs forward their deep argument (R-DEEP-FORWARDED).',
-    'C15': ' Also: R-ANALYZE-SPECIAL and R-EMITTER-DOC-RESET.',
-    'C16': ' Also: R-CONSTRUCT-CACHE (the loader gives back the sharing the dump wrote, for every node kind).',
+    'C11': ' Also: R-EMITTER-DOC-RESET; no function changes interpreter-wide settings (R-NO-PROCESS-STATE). R-NO-MEMO (no lru_cache / cached_property anywhere).',
+    'C13': ' Also: construct_sequence/mapping/pairs forward their deep argument (R-DEEP-FORWARDED). R-HASHABLE-GUARD shared; R-TWO-PHASE-KEPT (from_yaml returns the generator unconsumed; construct_document never enables deep construction).',
+    'C15': ' Also: R-ANALYZE-SPECIAL and R-EMITTER-DOC-RESET. R-TAG-SUFFIX-NONEMPTY shared; R-FOLD-LEADING-SPACE.',
+    'C16': ' Also: R-CONSTRUCT-CACHE (the loader gives back the sharing the dump wrote, for every node kind). R-GLOBAL-READONLY and R-NO-MEMO shared.',
     'C17': ' Also: both halves of a (dict, slots) state are applied on every path (R-STATE-APPLIED), the dict half through '
-           '__dict__.update (R-DICT-STATE-DIRECT); the compact python/object: form only for __newobj__ reductions (R-NEWOBJ-FORM).',
+           '__dict__.update (R-DICT-STATE-DIRECT); the compact python/object: form only for __newobj__ reductions (R-NEWOBJ-FORM). R-SETSTATE-UNCONDITIONAL, R-ALIAS-KEY-FRESH.',
     'C18': ' Also: one stream.read per refill (R-SINGLE-READ); the dispose() the API calls releases every component\'s state '
-           '(R-DISPOSE-CHAIN).',
-    'C19': ' Also: R-NO-PROCESS-STATE and R-DISPOSE-CHAIN; the two enumerated handlers are recognised by shape, not by function name.',
+           '(R-DISPOSE-CHAIN). R-NO-MEMO.',
+    'C19': ' Also: R-NO-PROCESS-STATE and R-DISPOSE-CHAIN; the two enumerated handlers are recognised by shape, not by function name. R-NO-GENERATOR-AROUND-CALLBACK: every generator frame of the package from inside which caller-supplied code can run (PEP 479 turns the caller\'s StopIteration into RuntimeError) - 11 known findings on today\'s tree (the 4 iterating API functions and the 7 two-step constructors), any new frame is a violation.',
 }
 
 NOT_APPLICABLE = {
